@@ -220,6 +220,44 @@ theorem diagRect_Pull (o : Out ℝ) (n T : Nat) (m td : Nat → ℝ) (hT : n ≤
     simp [at2_tab2, hti]
   · intro hni; exact absurd (mem_range.mpr (lt_of_lt_of_le hi hT)) hni
 
+/-! ### gradients of element-wise leaves (partial derivatives of the summed value) -/
+
+theorem at1_set (x : Vec ℝ) (j k : Nat) (y : ℝ) (hj : j < x.length) :
+    at1 (x.set j y) k = if k = j then y else at1 x k := by
+  unfold at1
+  simp only [List.getD_eq_getElem?_getD, List.getElem?_set]
+  by_cases hk : j = k
+  · subst hk; simp [hj]
+  · have : ¬ k = j := fun h => hk h.symm
+    simp [hk, this]
+
+/-- the value `Σ_k E_k(x_k)` of an element-wise leaf, as a function of the coordinate `x_j`, has derivative `G_j`
+    as soon as the pixel formula `E_j` has: the gradient entry is the exact partial derivative, for every size -/
+theorem ptwLeaf_val_hasDerivAt (n : Nat) (E : Nat → ℝ → ℝ) (G : ℝ) (x : Vec ℝ) (j : Nat) (hj : j < n) (hjx : j < x.length)
+    (h : HasDerivAt (E j) G (at1 x j)) :
+    HasDerivAt (fun y => sumL (tab n fun k => E k (at1 (x.set j y) k))) G (at1 x j) := by
+  have hfun : (fun y => sumL (tab n fun k => E k (at1 (x.set j y) k)))
+      = fun y => ∑ k ∈ range n, (if k = j then E j y else E k (at1 x k)) := by
+    funext y
+    rw [sumL_tab]
+    refine Finset.sum_congr rfl fun k _ => ?_
+    rw [at1_set _ _ _ _ hjx]
+    by_cases hk : k = j
+    · subst hk; simp
+    · simp [hk]
+  rw [hfun]
+  have hs := HasDerivAt.fun_sum (u := range n) (A := fun k y => if k = j then E j y else E k (at1 x k))
+    (A' := fun k => if k = j then G else 0) (x := at1 x j) (by
+      intro k _
+      by_cases hk : k = j
+      · simp only [hk, if_true]; exact h
+      · simp only [hk, if_false]; exact hasDerivAt_const _ _)
+  have hsum : ∑ k ∈ range n, (if k = j then G else 0) = G := by
+    rw [Finset.sum_ite_eq' (range n) j (fun _ => G), if_pos (mem_range.mpr hj)]
+  rw [hsum] at hs
+  exact hs
+
+
 /-! ### leaves and trees -/
 
 /-- number of real coordinates of a leaf -/
